@@ -26,6 +26,9 @@ NOT_WRITTEN = {
 
 Path = Tuple[str, ...]
 
+# actual spelling of some locals, discovered by role on every run (defaults = spelling on the pinned tree)
+R = {"translate_map": "translate_map", "key": "key", "value": "value", "tkeys": {"translated_key", "key"}, "component": "component"}
+
 
 def const_str(e: ast.AST) -> Optional[str]:
     return e.value if isinstance(e, ast.Constant) and isinstance(e.value, str) else None
@@ -105,7 +108,7 @@ def lambda_entries(fn_node: ast.AST, flowir_key: str, translate: Optional[Dict[s
         bodies = [r.value for r in source.walk_own(fn_node) if isinstance(r, ast.Return) and r.value is not None]
         keyname = fn_node.args.args[0].arg if fn_node.args.args else "key"
         # key = translate_map[key] inside the converter
-        translated = any(isinstance(n, ast.Assign) and isinstance(n.value, ast.Subscript) and dotted(n.value.value) == "translate_map"
+        translated = any(isinstance(n, ast.Assign) and isinstance(n.value, ast.Subscript) and dotted(n.value.value) == R["translate_map"]
                          for n in source.walk_own(fn_node))
         if not translated:
             translate = None
@@ -188,21 +191,21 @@ def extract_writer_table(ctx, m) -> Dict[Path, List[Tuple[str, str, ast.AST]]]:
         env = Env(fn, "comp")
         local_defs = {n.name: n for n in fn.body if isinstance(n, ast.FunctionDef)}
         translate = None
+        subscripted = {x.value.id for f_ in local_defs.values() for x in ast.walk(f_) if isinstance(x, ast.Subscript) and isinstance(x.value, ast.Name)}
         for n in source.walk_own(fn):
-            if isinstance(n, ast.Assign) and any(isinstance(t, ast.Name) and t.id == "translate_map" for t in n.targets):
+            if isinstance(n, ast.Assign) and len(n.targets) == 1 and isinstance(n.targets[0], ast.Name) and n.targets[0].id in subscripted:
                 d = dict_literal(n.value)
-                if d is not None:
+                if d is not None and d and all(const_str(v) is not None for v in d.values()):
                     translate = {k: const_str(v) for k, v in d.items()}
+                    R["translate_map"] = n.targets[0].id
         # dict-of-dicts 'optional' keyed by group (resource manager)
-        grouped: Dict[str, Dict[str, ast.AST]] = {}
+        grouped_by_name: Dict[str, Dict[str, Dict[str, ast.AST]]] = {}
         for n in source.walk_own(fn):
-            if isinstance(n, ast.Assign) and any(isinstance(t, ast.Name) and t.id == "optional" for t in n.targets):
+            if isinstance(n, ast.Assign) and len(n.targets) == 1 and isinstance(n.targets[0], ast.Name):
                 d = dict_literal(n.value)
-                if d is not None:
-                    for g, sub_ in d.items():
-                        sd = dict_literal(sub_)
-                        if sd is not None:
-                            grouped[g] = sd
+                if d is not None and d and all(dict_literal(sub_) is not None for sub_ in d.values()):
+                    gd = {g: dict_literal(sub_) for g, sub_ in d.items()}
+                    grouped_by_name[n.targets[0].id] = gd
         calls = [c for c in source.calls_in(fn) if last_attr(c) == "_translate_dict_to_dict"]
         if not calls:
             raise AnalysisError("writer %s no longer goes through _translate_dict_to_dict" % q)
@@ -221,11 +224,11 @@ def extract_writer_table(ctx, m) -> Dict[Path, List[Tuple[str, str, ast.AST]]]:
                 d = dict_literal(dexpr)
                 if d is not None:
                     sources.append((base, d))
-                elif isinstance(dexpr, ast.Subscript) and isinstance(dexpr.value, ast.Name) and dexpr.value.id == "optional" and grouped:
-                    for g, sd in grouped.items():
-                        sources.append((tuple(x if not x.startswith("<") else g for x in base), sd))
-                elif isinstance(dexpr, ast.Subscript) and isinstance(dexpr.value, ast.Name) and dexpr.value.id == "required":
-                    continue
+                elif isinstance(dexpr, ast.Subscript) and isinstance(dexpr.value, ast.Name) and dexpr.value.id in grouped_by_name:
+                    # a table of tables indexed by the group: every group contributes its (possibly empty) table
+                    for g, sd in grouped_by_name[dexpr.value.id].items():
+                        if sd:
+                            sources.append((tuple(x if not x.startswith("<") else g for x in base), sd))
                 else:
                     raise AnalysisError("writer %s: cannot read the option table %s" % (q, short(dexpr)))
             for (b, d) in sources:
@@ -240,8 +243,10 @@ def extract_writer_table(ctx, m) -> Dict[Path, List[Tuple[str, str, ast.AST]]]:
     # executors
     fn = m.func("Dosini._comp_executors_to_str")
     ctx.analysed(fn)
+    _er = [r.value.id for r in source.walk_own(fn) if isinstance(r, ast.Return) and isinstance(r.value, ast.Name)]
+    ERET = _er[-1] if _er else "ret"
     for n in source.walk_own(fn):
-        if isinstance(n, ast.Assign) and isinstance(n.targets[0], ast.Subscript) and dotted(n.targets[0].value) == "ret":
+        if isinstance(n, ast.Assign) and isinstance(n.targets[0], ast.Subscript) and dotted(n.targets[0].value) == ERET:
             k = const_str(n.targets[0].slice)
             if k:
                 which = "pre" if "'pre'" in source.src(n.value) else "post" if "'post'" in source.src(n.value) else "?"
@@ -265,7 +270,7 @@ def conv_kind_of_reader(value_expr: ast.AST) -> str:
 
 def tested_keys(test: ast.AST) -> Optional[List[str]]:
     cp = match.compare_parts(test)
-    if not cp or not (isinstance(cp[0], ast.Name) and cp[0].id == "key"):
+    if not cp or not (isinstance(cp[0], ast.Name) and cp[0].id == R["key"]):
         return None
     if isinstance(cp[1], ast.Eq) and const_str(cp[2]) is not None:
         return [const_str(cp[2])]
@@ -283,6 +288,27 @@ def extract_reader_table(ctx, m, translate: Dict[str, str]):
     loops = [n for n in source.walk_own(fn) if isinstance(n, ast.For) and "known_flowir_options" in source.src(n.iter)]
     if not loops:
         raise AnalysisError("anchor missing: loop over known_flowir_options() in parse_component")
+    # roles: the loop variable (option key), the option's value (<vars>[key]), the translated key(s), the component dictionary
+    if isinstance(loops[0].target, ast.Name):
+        R["key"] = loops[0].target.id
+    R["tkeys"] = {R["key"]}
+    for n in ast.walk(loops[0]):
+        if isinstance(n, ast.Assign) and len(n.targets) == 1 and isinstance(n.targets[0], ast.Name):
+            v = n.value
+            if isinstance(v, ast.Subscript) and isinstance(v.slice, ast.Name) and v.slice.id == R["key"]:
+                if isinstance(v.value, ast.Name) and any(dict_literal(x) is not None for x in match.assigned_value(fn, v.value.id)):
+                    R["tkeys"].add(n.targets[0].id)          # translated = <literal map>[key]
+                else:
+                    R["value"] = n.targets[0].id             # value = <variables>[key]
+            elif isinstance(v, ast.Name) and v.id == R["key"]:
+                R["tkeys"].add(n.targets[0].id)              # translated = key
+    comp_stores: Dict[str, int] = {}
+    for n in source.walk_own(fn):
+        if isinstance(n, ast.Assign) and isinstance(n.targets[0], ast.Subscript) and isinstance(n.targets[0].value, ast.Name) \
+                and isinstance(n.value, ast.Name) and const_str(n.targets[0].slice) in ("command", "workflowAttributes", "resourceManager", "resourceRequest", "executors"):
+            comp_stores[n.targets[0].value.id] = comp_stores.get(n.targets[0].value.id, 0) + 1
+    if comp_stores:
+        R["component"] = max(comp_stores, key=lambda k: comp_stores[k])
     chain = [s for s in loops[0].body if isinstance(s, ast.If)]
     if not chain:
         raise AnalysisError("anchor missing: if/elif chain in parse_component")
@@ -290,11 +316,17 @@ def extract_reader_table(ctx, m, translate: Dict[str, str]):
     # top-level dicts -> component field
     top: Dict[str, Path] = {}
     for n in source.walk_own(fn):
-        if isinstance(n, ast.Assign) and isinstance(n.targets[0], ast.Subscript) and dotted(n.targets[0].value) == "component" \
+        if isinstance(n, ast.Assign) and isinstance(n.targets[0], ast.Subscript) and dotted(n.targets[0].value) == R["component"] \
                 and isinstance(n.value, ast.Name):
             k = const_str(n.targets[0].slice)
             if k:
                 top[n.value.id] = (k,)
+    # lists stored into a top-level dictionary under a constant key:  executors['pre'] = <list>  =>  <list> -> (executors, pre)
+    for n in source.walk_own(fn):
+        if isinstance(n, ast.Assign) and isinstance(n.targets[0], ast.Subscript) and isinstance(n.targets[0].value, ast.Name) \
+                and n.targets[0].value.id in top and isinstance(n.value, ast.Name) and const_str(n.targets[0].slice) \
+                and any(isinstance(x, (ast.List, ast.Dict)) and not getattr(x, "elts", getattr(x, "keys", None)) for x in match.assigned_value(fn, n.value.id)):
+            top.setdefault(n.value.id, top[n.targets[0].value.id] + (const_str(n.targets[0].slice),))
     top.setdefault("executors_pre", ("executors", "pre"))
     top.setdefault("executors_post", ("executors", "post"))
     top.setdefault("executors_main", ("executors", "main"))
@@ -342,12 +374,12 @@ def extract_reader_table(ctx, m, translate: Dict[str, str]):
                 if p is None:
                     continue
                 # stores of whole sub-dicts back into their parent (workflowAttributes['memoization'] = memoization) are plumbing
-                if isinstance(v, ast.Name) and v.id in local and v.id not in ("value",):
+                if isinstance(v, ast.Name) and v.id in local and v.id not in (R["value"],):
                     continue
                 if isinstance(v, ast.Dict):
                     continue
                 kind = conv_kind_of_reader(v)
-                if isinstance(v, ast.Name) and v.id != "value":
+                if isinstance(v, ast.Name) and v.id != R["value"]:
                     # a branch-local variable: take the converter of its (non-None) definitions in this branch
                     kinds = set()
                     for st in body:
@@ -372,9 +404,7 @@ def _reader_path(e: ast.AST, local: Dict[str, Path], tkey: Optional[str]) -> Opt
         c = const_str(e.slice)
         if c is not None:
             return base + (c,)
-        if isinstance(e.slice, ast.Name) and e.slice.id == "translated_key" and tkey is not None:
-            return base + (tkey,)
-        if isinstance(e.slice, ast.Name) and e.slice.id == "key" and tkey is not None:
+        if isinstance(e.slice, ast.Name) and e.slice.id in R["tkeys"] and tkey is not None:
             return base + (tkey,)
     return None
 
@@ -569,7 +599,7 @@ def run(ctx) -> None:
     rm = m.func("Dosini._comp_resource_manager_to_str")
     wmap = None
     for nn in source.walk_own(rm):
-        if isinstance(nn, ast.Assign) and any(isinstance(t, ast.Name) and t.id == "translate_map" for t in nn.targets):
+        if isinstance(nn, ast.Assign) and any(isinstance(t, ast.Name) and t.id == R["translate_map"] for t in nn.targets):
             d = dict_literal(nn.value)
             if d is not None:
                 wmap = {k: const_str(v) for k, v in d.items()}
